@@ -1,7 +1,6 @@
 //! Runtime-core scenarios: spawn/join (C01), park/unpark (C02), timed waits (C08), cancellation
 //! enumeration (C09), panic isolation (C13), scopes (C14), coroutine-local storage (C15).
 
-use crate::hook;
 use crate::scen_sync::wait_fire;
 use crate::util::*;
 use crate::ScenDef;
@@ -165,7 +164,7 @@ fn spawn(x: &mut Exec) -> Res {
                     coroutine::yield_now();
                 }
             }
-            for (i, kind, nested, h) in hs {
+            for (i, kind, _nested, h) in hs {
                 if kind == 2 {
                     nap(r.below(200));
                     unsafe { h.coroutine().cancel() };
@@ -1351,7 +1350,7 @@ fn scope(x: &mut Exec) -> Res {
                 let f1 = child(1, false);
                 let _ = select!(
                     _ = { join!(f0(), f1()); } => {},
-                    _ = coroutine::sleep(Duration::from_micros(if fault == 2 { 100 } else { 100_000 })) => { if fault == 2 { panic!("OWNER") } }
+                    _ = coroutine::sleep(Duration::from_micros(if fault == 2 { 100 } else { 100_000 })) => if fault == 2 { panic!("OWNER") }
                 );
             }
             _ => {
